@@ -405,6 +405,49 @@ def _thread(B, c0, r_local, tagging=True, tags=(OK, ERR)):
     return out
 
 
+def _thread_local_variants(B):
+    """Jump threading for enum values: a block that ends by assigning `L = Enum::V(..)` and runs straight (goto / drop) into a
+    switch on L's discriminant gets its own copy of that line, ending in the arm for V. Returns the number of jumps threaded."""
+    adts = getattr(B.crate, "adts", {})
+    n = 0
+    for i in range(len(B.blocks)):
+        blk = B.blocks[i]
+        if blk["cleanup"] or "thr" in blk:
+            continue
+        t = blk["term"]
+        if t["tk"] not in ("goto", "drop") or t.get("t") is None:
+            continue
+        last = None
+        for st in blk["stmts"]:
+            if st["sk"] != "assign":
+                continue
+            if not st["pl"]["p"]:
+                rv = st["rv"]
+                if rv["rk"] == "agg" and rv.get("ak") == "adt" and "vidx" in rv and \
+                        (rv.get("adt") in ("std::option::Option", "std::result::Result") or (adts.get(rv.get("adt")) or {}).get("enum")):
+                    last = (st["pl"]["l"], rv["adt"], int(rv["vidx"]), rv.get("variant"))
+                elif last and st["pl"]["l"] == last[0]:
+                    last = None
+            elif last and st["pl"]["l"] == last[0]:
+                last = None
+        if not last:
+            continue
+        L, adt, v, vname = last
+        if adt == "std::result::Result":
+            tag = OK if vname == "Ok" else ERR
+        else:
+            tag = "v%d" % v
+        _reset(B)
+        conts = _thread(B, t["t"], L, adt, [tag])
+        tgt = conts.get(tag)
+        if tgt is not None:
+            t["t"] = tgt
+            n += 1
+    if n:
+        _reset(B)
+    return n
+
+
 def _second_level(B, start, tested1, seen):
     """From the Ok arm of the first test follow the straight line to a switch on the discriminant of the Ok /
     Continue payload (an Option). Returns (blocks on the way incl. the switch block, {value: target}, otherwise)."""
@@ -642,6 +685,15 @@ def inline_crate(crate, vocab=None):
             continue
         for h in _process(crate, b, H, stats):
             inlined_into.setdefault(h, set()).add(b.root)
+    # a local that was just given a known variant and is matched right afterwards (`let step = match state { Done => Step::Finished,
+    # .. }; match step { .. }`): the arm that built it jumps straight to the arm that consumes it
+    n_thr = 0
+    for name in sorted(crate.bodies):
+        b = crate.bodies[name]
+        if b.kind in ("const", "static", "anon_const", "other") or not (b.file or "").startswith("src/"):
+            continue
+        n_thr += _thread_local_variants(b)
+    stats["variant_jumps"] = n_thr
     # which helpers are gone everywhere?
     remaining = set()
     for b in crate.bodies.values():
